@@ -35,6 +35,7 @@ Require Import Cirbo.Model.ArithSub Cirbo.Model.ArithSum2 Cirbo.Model.ArithSumN 
 Require Import Cirbo.Proofs.BuilderFacts Cirbo.Proofs.ArithFacts Cirbo.Proofs.ArithGenFacts
   Cirbo.Proofs.ArithSumStruct Cirbo.Proofs.ArithMulPow2 Cirbo.Proofs.ArithSquareFacts Cirbo.Proofs.ArithMulLen
   Cirbo.Proofs.ArithMulFinal Cirbo.Proofs.TotalFacts Cirbo.Proofs.FreshOnly Cirbo.Proofs.ArithMulTotalFinal.
+Require Import Cirbo.Model.PyPrims Cirbo.Model.PyPrims08 Cirbo.Generated.ArithGen08 Cirbo.Proofs.ArithGen08F.
 Require Import Coq.Logic.FinFun.
 Open Scope Z_scope.
 
@@ -284,6 +285,54 @@ Theorem C08_square_pow2_m1_total_exact : forall fresh, Injective fresh -> (foral
     forall asg xv, bvals (bc s) asg xs xv ->
       exists rv, bvals (bc s') asg rs rv /\ decode be rv = decode be xv * decode be xv.
 Proof. exact add_square_pow2_m1_total_exact. Qed.
+
+(* ---- the models above ARE the source: second tie (translator T19) ------------------------------------------------------ *)
+(* gen_<f> (Generated/ArithGen08.v) is derived by translator/t19_mul_gen.py from the CURRENT text of
+   cirbo/synthesis/generation/arithmetics/multiplication.py and square.py, statement by statement, on every run of the
+   check (Python ints as Z; lists, item stores, append, deque.popleft with Python semantics: Model/PyPrims.v and
+   PyPrims08.v; `while` loops and the functions that call themselves on the fuel of the hand model; the summation /
+   subtraction generators of C07 / C09 are the hand models, of which only the signatures are read; the primitives are
+   add_gate_from_tt and the regenerated cells add_sum2 / add_sum3).  Each of them runs exactly like the hand model the
+   theorems above are about: same result, same final state, same error -- for every argument, every host state and
+   every naming function.  Side conditions: the private last_step_sum_with_new_powers_sum is not called with ONE empty
+   operand and the other of two or more bits (Python: ValueError from max([]) inside add_sum_n_weighted_bits, hand model:
+   IndexError; Proofs/ArithGen08F.v: last_step_empty_operand_differs; never the case inside the Karatsuba recursion,
+   which pads to equal widths first, so MulMode.KARATSUBA needs no side condition); a negative size_of_input_a of
+   generate_mul is a Python slice from the end, which the nat parameter of the hand model cannot express
+   (generate_mul_negative_size_differs).  NOT regenerated: add_mul_wallace (nested closures over a mutable cell); its
+   entry of _process_mul is the hand model itself.  py_bare_labels n = [str(0); ...; str(n-1)] are the inputs of
+   Circuit.bare_circuit(n). *)
+Theorem C08_generators_regenerated :
+  (forall a b be fresh s, run fresh (gen_add_mul a b be) s = run fresh (add_mul a b be) s) /\
+  (forall a b be fresh s, run fresh (gen_add_mul_alter a b be) s = run fresh (add_mul_alter a b be) s) /\
+  (forall a b be fresh s, run fresh (gen_add_mul_pow2_m1 a b be) s = run fresh (add_mul_pow2_m1 a b be) s) /\
+  (forall a b be fresh s, run fresh (gen_add_mul_dadda a b be) s = run fresh (add_mul_dadda a b be) s) /\
+  (forall a b be fresh s,
+     (length a = 0%nat -> (length b <= 1)%nat) -> (length b = 0%nat -> (length a <= 1)%nat) ->
+     run fresh (gen_last_step_sum_with_new_powers_sum a b be) s
+     = run fresh (last_step_sum_with_new_powers_sum a b be) s) /\
+  (forall a b be fresh s, run fresh (gen_add_mul_karatsuba a b be) s = run fresh (add_mul_karatsuba a b be) s) /\
+  (forall a b be fresh s,
+     run fresh (gen_add_mul_karatsuba_with_efficient_sum a b be) s
+     = run fresh (add_mul_karatsuba_with_efficient_sum a b be) s) /\
+  (forall x be fresh s, run fresh (gen_add_square_pow2_m1 x be) s = run fresh (add_square_pow2_m1 x be) s) /\
+  (forall x be fresh s, run fresh (gen_add_square x be) s = run fresh (add_square x be) s) /\
+  (* the recursions, for every fuel *)
+  (forall fuel a b be fresh s,
+     run fresh (gen_add_mul_karatsuba_rec fuel a b be) s
+     = run fresh (kara (fun x y => add_mul_pow2_m1 x y false) fuel a b be) s) /\
+  (forall fuel a b be fresh s,
+     run fresh (gen_add_mul_karatsuba_with_efficient_sum_rec fuel a b be) s
+     = run fresh (kara (fun x y => last_step_sum_with_new_powers_sum x y false) fuel a b be) s) /\
+  (forall fuel x be fresh s, run fresh (gen_add_square_rec fuel x be) s = run fresh (square_rec fuel x be) s) /\
+  (* the dispatch tables _process_mul / _process_square and the wrappers generate_mul / generate_square *)
+  (forall t a b be fresh s, run fresh (gen__process_mul t a b be) s = run fresh (process_mul t a b be) s) /\
+  (forall t x be fresh s, run fresh (gen__process_square t x be) s = run fresh (process_square t x be) s) /\
+  (forall fresh k0 sa sb t be, 0 <= sa ->
+     gen_generate_mul fresh k0 sa sb t be = generate_mul fresh k0 (py_bare_labels (sa + sb)) (Z.to_nat sa) t be) /\
+  (forall fresh k0 n t be,
+     gen_generate_square fresh k0 n t be = generate_square fresh k0 (py_bare_labels n) t be).
+Proof. exact generators_regenerated08. Qed.
 
 (* ---- non-vacuity: the hypotheses are satisfiable ---------------------------------------------------------------------- *)
 Definition demo_host : circuit :=
